@@ -531,10 +531,9 @@ pub fn run_case(case: &Case, ctx: &mut Ctx, property: &str) -> Verdict {
                     }
                     // contents are destroyed exactly once by the pool drop (either policy)
                     for mut o in objs.drain(..) {
-                        for h in o.handles.drain(..) {
-                            // dangling copies: discard without touching the (new) pool
-                            std::mem::forget(h);
-                        }
+                        // dangling copies: raw handles have no destructor, dropping the boxes
+                        // does not touch the (new) pool
+                        o.handles.clear();
                         if descs[o.slot].droppy {
                             let c = drops_of(o.id);
                             if c != 1 {
